@@ -52,14 +52,15 @@ def diff_seq(kind, L):
 
 
 PATS = [rb"Uid:\t(\d+)\t(\d+)\t(\d+)", rb"Threads:\t(\d+)", rb"ctxt_switches:\t(\d+)", rb"\nPrivate.*:\s+(\d+)", rb"\nPss\:\s+(\d+)",
-        rb"Cpus_allowed_list:\t(\d+)-(\d+)", rb"Gid:\t(\d+)\t(\d+)\t(\d+)", rb"\nSwap\:\s+(\d+)"]
+        rb"Cpus_allowed_list:\t(\d+)-(\d+)", rb"Gid:\t(\d+)\t(\d+)\t(\d+)", rb"\nSwap\:\s+(\d+)",
+        (rb"^Uid:\t(\d+)\t(\d+)\t(\d+)", re.M), (rb"^Threads:\t(\d+)", re.M), (rb"^P", re.M), (rb"^U", 0)]
 PALPHA = [ord(c) for c in "U:\t1\n-P"]
 
 
 def diff_pat(L):
     bad, total = [], 0
-    for pat in PATS:
-        rp = re.compile(pat)
+    for pat, lead in [(p_, l_) for p_ in PATS for l_ in (b"Name:\t", b"")]:
+        rp = re.compile(*pat) if isinstance(pat, tuple) else re.compile(pat)
         sp = pattern.SymPattern(rp)
         res = []
 
@@ -68,7 +69,7 @@ def diff_pat(L):
             if isinstance(mid, seq.SymSeq):
                 for c in mid.items:
                     ctx.ex.add(z3.Or(*[c == a for a in PALPHA]))
-            data = b"Name:\t" + mid + b"\nUid:\t10\t20\t30\nGid:\t1\t2\t3\nThreads:\t4\nCpus_allowed_list:\t0-3\nPrivate_Clean:    8 kB\nPss:  5 kB\nSwap: 3 kB\nvoluntary_ctxt_switches:\t9\n"
+            data = lead + mid + b"\nUid:\t10\t20\t30\nGid:\t1\t2\t3\nThreads:\t4\nCpus_allowed_list:\t0-3\nPrivate_Clean:    8 kB\nPss:  5 kB\nSwap: 3 kB\nvoluntary_ctxt_switches:\t9\n"
             r = sp.findall(data)
             m = ctx.ex.current_model()
             res.append((evaluate(m, data), evaluate(m, r)))
